@@ -2,7 +2,7 @@
 """c16_read.py <dir> [shard n_shards]: read every *.mcap in <dir> with the repository's Python readers and print
 one JSON line per file. Used by check C16 (Go -> Python)."""
 import sys, os, json, io
-sys.path.insert(0, '/repo/python/mcap')
+sys.path.insert(0, os.environ.get('VERIF_REPO', '/repo') + '/python/mcap')
 from mcap.stream_reader import StreamReader
 from mcap.reader import SeekingReader
 from mcap import records as R
